@@ -31,7 +31,7 @@ STUB_COMPONENTS = ["leaf processors (svsim.lib)", "RecordingExecutor", "SimClock
 ASSUMPTIONS = ["volatile fields are exactly: run_id (header and identity.run_id), timestamp, timing.started_at, "
                "timing.finished_at, timing.wall_ms, timing.cpu_ms, seq - nothing else is removed before comparing"]
 REQUIRED_PROBES = ["reused_pipeline_second_traced_run", "reused_pipeline_with_sweep", "failing_subject", "history_contains_other_config",
-                   "result_object_fed_back", "other_process_other_hashseed", "cli_launch_repeated_with_same_launch_id", "concurrent_first_traced_runs_in_fresh_interpreter", "orchestrator_shared_with_sibling_config", "stochastic_processor_with_seeded_global_prng", "equal_but_differently_typed_context_values_in_history"]
+                   "result_object_fed_back", "other_process_other_hashseed", "cli_launch_repeated_with_same_launch_id", "concurrent_first_traced_runs_in_fresh_interpreter", "orchestrator_shared_with_sibling_config", "stochastic_processor_with_seeded_global_prng", "equal_but_differently_typed_context_values_in_history", "configuration_with_two_defects"]
 CONFIG = {
     "quick": {"runs": 2000, "budget_s": 240, "timeout_s": 120},
     "thorough": {"runs": 60000, "budget_s": 1500, "timeout_s": 120},
@@ -55,6 +55,10 @@ def generate(rng: random.Random, tier: str, seed: int) -> dict:
             kind, k = rng.choice(fs)
             subject = gen.apply_failure(a, kind, k)
             fail = [kind, k]
+            if kind in ("probe_no_key", "unknown_param") and rng.random() < 0.5:
+                # a second, later defect in the same configuration: whichever error the untraced run reports, the traced run reports too
+                subject = dict(subject, nodes=subject["nodes"] + [{"processor": "SvNoSuchProcessor"}])
+                fail = [kind + "+unknown_processor_later", k]
     py_seed = None
     if fail is None and a["truth"][-1]["out"] == "float" and rng.random() < 0.2:
         # a stochastic processor drawing from the global `random` generator; the caller seeds it before every run
@@ -349,6 +353,8 @@ def execute(sc: dict, seed: int) -> dict:
             stats["probe.equal_but_differently_typed_context_values_in_history"] = 1
         if sc.get("py_seed") is not None:
             stats["probe.stochastic_processor_with_seeded_global_prng"] = 1
+        if sc.get("fail") and "+unknown_processor_later" in sc["fail"][0]:
+            stats["probe.configuration_with_two_defects"] = 1
         if sc.get("fail"):
             stats["probe.failing_subject"] = 1
             stats[f"fault.{sc['fail'][0]}"] = 1
